@@ -11,6 +11,7 @@ void GMGPolar::solve()
     /* Reset the state of any earlier solve */
     /* ------------------------------------ */
     residual_norms_.clear();
+    exact_errors_.clear();
     if (extrapolation_ == ExtrapolationType::COMBINED) {
         /* The combined mode starts every solve with full grid smoothing, as set up. */
         full_grid_smoothing_ = true;
